@@ -691,8 +691,32 @@ def rule_publish_position(chk, prog):
         (r.bad if bad else r.ok)(q, fn.where(), bad or "")
 
 
+def rule_static_solver_equalities(chk, prog):
+    from ..callgraph import CallGraph
+    r = chk.rule("STATIC-SOLVER-SEES-EQUALITIES", "an equality left+gap==right is violated by POSITIVE slack too.  The incremental solver's work-list "
+                 "selection (mostViolated) looks at Constraint::equality; for the static vpsc::Solver the call-graph closure of satisfy() "
+                 "(mergeLeft / mergeRight merge only across negative slack, the final scan tests slack < -1e-10) must read that flag "
+                 "somewhere -- otherwise an equality whose ends start further apart than its gap is neither enforced nor flagged "
+                 "(a desired 0, b desired 10, a+5==b: result 0, 10, unflagged)", floor=1)
+    cg = CallGraph(prog)
+    bykey = {f.key: f for f in prog.all_functions()}
+    for q, ns in (("vpsc::Solver::satisfy", "vpsc"),):
+        fn = prog.fn(q)
+        r.count()
+        readers = set()
+        for k in cg.reachable([fn.key]):
+            f = bykey.get(k)
+            if f is None or not f.body or not f.q.startswith(ns + "::") or f.q.startswith(ns + "::operator<<"):
+                continue
+            if any(n.get("k") == "MemberExpr" and n.get("ref") == ns + "::Constraint::equality" for n in f.nodes()):
+                readers.add(f.q)
+        (r.ok if readers else r.bad)("static solver satisfy()", fn.where(), ("read in %s" % sorted(readers)) if readers else
+                                     "nothing that satisfy() reaches looks at Constraint::equality: equalities are treated as inequalities")
+
+
 def run(chk):
     prog = chk.load()
+    chk.guard(rule_static_solver_equalities, chk, prog)
     from . import c02 as _c02
     _c02.PROG[0] = prog
     chk.guard(rule_verify_before_publish, chk, prog)
